@@ -394,4 +394,9 @@ def extra_validation():
         # characters that Python's str.splitlines() treats as line breaks but JSON allows unescaped inside strings: one document per \n-terminated line
         ([".a"], '{"a": "x\u2028y"}\n{"a": "z"}\n', 0, ['"x\\u2028y"', '"z"']), ([".a"], '{"a": "x\u0085y"}\n{"a": "u\u2029v"}\n', 0, ['"x\\u0085y"', '"u\\u2029v"']),
         (["-b", ".a == 'p\u2028'"], '{"a": "p\u2028"}\n{"a": "q"}\n', 1, ["true", "false"]), ([".a"], '{"a": 1}\r\n{"a": 2}\r\n', 0, ["1", "2"])]]
+    # long streams of failing documents followed by a good one (per-stream state such as depth counters, caches): enumeration
+    ws += [{"check": "c20.long_stream", "args": {"argv": a, "bad": b, "good": g, "n": n, "last": l, "status": st}} for a, b, g, n, l, st in [
+        (["size({.a: 1, .b: 2})"], '{"a":1,"b":1}', '{"a":1,"b":2}', 520, "2", 0), ([".a.reduce(r, i, 0, r + 10 / i)"], '{"a":[1,0]}', '{"a":[1,2]}', 80, "15", 0),
+        (["-b", "10 / .a > 1"], '{"a":0}', '{"a":5}', 120, "true", 0), ([".a.map(x, 1 / x)[0]"], '{"a":[0]}', '{"a":[1]}', 120, "1", 0),
+        (["-b", ".a.exists(x, {x: 1, 1: 2}.size() == 2)"], '{"a":[1]}', '{"a":[3]}', 120, "true", 0)]]
     return ws
